@@ -30,6 +30,8 @@ import traceback
 from .kernel import Choices
 
 VERIF = os.path.dirname(os.path.dirname(os.path.abspath(__file__)))
+# mutant / seeded-change runs write their evidence and replays elsewhere (tools/mutants.py)
+OUT = os.environ.get("VERIF_OUT") or VERIF
 ENGINE_VERSION = 1
 
 
@@ -305,8 +307,8 @@ def load_known(prop):
 # -- replay files ----------------------------------------------------------------
 
 def write_replay(prop, seed, run_index, choices, orig_len, res, n):
-    os.makedirs(os.path.join(VERIF, "replays"), exist_ok=True)
-    path = os.path.join(VERIF, "replays", "%s-%d-%d.json" % (prop, seed, n))
+    os.makedirs(os.path.join(OUT, "replays"), exist_ok=True)
+    path = os.path.join(OUT, "replays", "%s-%d-%d.json" % (prop, seed, n))
     kinds = res.get("kinds") or []
     doc = {
         "property": prop,
@@ -500,8 +502,8 @@ def check(prop, tier="quick", seed=0, runs=None, jobs=None, max_s=None, out=sys.
         "wall_s": round(wall, 2),
         "violations": len(new_violations),
     }
-    os.makedirs(os.path.join(VERIF, "evidence"), exist_ok=True)
-    with open(os.path.join(VERIF, "evidence", "%s.json" % prop), "w") as f:
+    os.makedirs(os.path.join(OUT, "evidence"), exist_ok=True)
+    with open(os.path.join(OUT, "evidence", "%s.json" % prop), "w") as f:
         json.dump(evidence, f, indent=1, default=str)
 
     print("runs=%d distinct_nontrivial=%d steps=%d simulated_s=%.0f wall=%.1fs (%.0f runs/h)" % (
